@@ -1,5 +1,5 @@
 ---------------------------- MODULE Trace_Charset ----------------------------
-EXTENDS Charset, Json, IOUtils, TLC
+EXTENDS Charset, Json, IOUtils, TLC, TraceUtil
 Rec == ndJsonDeserialize(IOEnv.TRACE)
 VARIABLE l
 Ev(r) == [ct |-> r.ct, req |-> r.req, sess |-> r.sess, op |-> r.op, res |-> r.res,
@@ -8,7 +8,7 @@ TraceInit == l = 1
 TraceNext ==
   /\ l <= Len(Rec)
   /\ l' = l + 1
-  /\ \A g \in CharsetViolations(Ev(Rec[l])) : PrintT(<<"VIOL", l, Rec[l].id, "C18", g>>)
+  /\ \A g \in CharsetViolations(Ev(Rec[l])) : Viol(l, Rec[l].id, "C18", g, "")
 TraceSpec == TraceInit /\ [][TraceNext]_l
 TraceAccepted ==
   LET d == TLCGet("stats").diameter IN
